@@ -8,6 +8,7 @@ import Emu2a.Spec.AluSpec
 import Emu2a.Spec.BusMap
 import Emu2a.Spec.Supervision
 import Emu2a.Spec.Opcodes
+import Emu2a.Model.Flow
 open Emu2a
 
 def stepFuel : Nat := 100000
@@ -168,6 +169,12 @@ def applyOp (s : St) (ws : List String) : St × String :=
       let bounded := !defd || steps ≤ bound
       (s, s!"completes={b01 defd} zero=0 escape=0 bounded={b01 bounded}")
     | _, _ => bad
+  | ["spec.cost", op, b2, steps, ram] =>
+    match op.toNat?, steps.toNat?, ram.toNat? with
+    | some op, some steps, some ram =>
+      let expSteps := if Isa.isMul op || Isa.isDiv op then steps else Flow.stepsOf op b2.toNat?
+      (s, s!"edges={steps + ram} steps={expSteps}")
+    | _, _, _ => bad
   | ["spec.asmstep"] => (s, "equal")
   | ["spec.cpureset"] =>
     (s, "a=0 ir=2 r=0000000000000000 pr=- pf=0 pi=0 alu=00000 lb=00 run=R w=0 out=0000 micr=00 ucr=00 kept=1")
